@@ -134,13 +134,16 @@ Proof.
   assert (vnorm ROps [a0; a1; a2] = sqrt (dot3 [a0; a1; a2] [a0; a1; a2])) as Na.
   { unfold vnorm. rewrite vdot_dot3. reflexivity. }
   set (L := sqrt (dot3 [a0; a1; a2] [a0; a1; a2])) in *.
+  assert (forall c, -1 <= c <= 1 -> nmax ROps (nmin ROps c 1) (- (1)) = c) as CL.
+  { intros c Hc. unfold nmax, nmin. cbn [nltb ROps]. destruct (Rltb_spec 1 c); [lra|]. destruct (Rltb_spec c (- (1))); lra. }
   assert (forall d, d = L * (r * cos theta) ->
-            acos (d / (r * L)) = theta /\ acos (d / (L * r)) = theta) as Q.
+            acos (nmax ROps (nmin ROps (d / (r * L)) 1) (- (1))) = theta /\ acos (nmax ROps (nmin ROps (d / (L * r)) 1) (- (1))) = theta) as Q.
   { intros d ->. replace (L * (r * cos theta) / (r * L)) with (cos theta) by (field; lra).
     replace (L * (r * cos theta) / (L * r)) with (cos theta) by (field; lra).
+    rewrite CL by (pose proof (COS_bound theta); lra).
     split; apply acos_cos; exact Ht. }
   unfold angle, dot. cbn [length Nat.eqb rbind]. rewrite !vdot_dot3, Hn, Na.
-  cbn [nacos ndiv nmul ROps].
+  cbn [nacos ndiv nmul nneg n1 ROps].
   destruct (Q _ Hd) as [Q1 Q2]. split.
   - rewrite Q1. reflexivity.
   - rewrite (dot3_comm [a0; a1; a2] [u0; u1; u2]), Q2. reflexivity.
@@ -198,3 +201,11 @@ Proof.
   apply rodrigues_in_frame; [exact F |].
   intros v0 v1 v2. exact (rot3_rodrigues alpha a0 a1 a2 Rm v0 v1 v2 HR).
 Qed.
+
+(** ** Non-vacuity: the history of the seeded-change class (asked for its norm, changed by +=, copied), and the hypotheses of
+    the Angle theorem *)
+Example ex_history :
+  vhistory ROps Rhypot [0; 0; 1] [VQNorm; VAddAssign [3; 0; 0]; VCopy] = Ok [3; 0; 1] /\ nonzero3 3 0 1.
+Proof. split. - cbn. list_eq; ring. - left; lra. Qed.
+Example ex_angle_hypotheses : nonzero3 3 0 1 /\ 0 < 2 /\ 0 <= 0 <= PI.
+Proof. split; [left; lra|]. split; [lra|]. pose proof PI_RGT_0. lra. Qed.
